@@ -96,6 +96,9 @@ class Saving(BaseSaving):
         self :
             Reference to self.
         """
+        # Copy at fit time: hyper-parameters of `baseline_cost` may have been changed
+        # after construction, e.g. by `set_params(baseline_cost__<name>=...)`.
+        self.optimised_cost = self.baseline_cost.clone().set_params(param=None)
         self.baseline_cost.fit(X)
         self.optimised_cost.fit(X)
         return self
